@@ -20,8 +20,8 @@ RULE = ("definitions generated from the documented SFDL grammar over the catalog
         "for each a body with 0-2 elements per open list is built from the documented shape; bracket and name mutants; "
         "distinct by definition text; non-trivial when the definition contains at least one list")
 ASSUMPTIONS = ["docs/firststeps/sfdl.md is the specification of shapes and key names", "duplicate keys inside one record, "
-               "empty lists '<L>' and trailing text are undocumented and not generated", "comments are generated only after "
-               "whitespace or a bracket (as in the documented examples)"]
+               "empty lists '<L>' and trailing text are undocumented and not generated", "a comment glued to a token is always followed by "
+               "whitespace after its line break (the tokenizer swallows the line break with the comment)"]
 LEVEL_TEXT = ("Runtime monitoring of the real parser/generator against a documented-shape model over generated definitions; "
               "the shipped catalogue definitions are enumerated, generated definitions and mutants are sampled.")
 LEVEL_NOTE = "The model is the documentation, not the code; shapes are observed through decode()+get() of conforming bodies."
@@ -93,6 +93,10 @@ def render(ast, rng, fancy=True):
         base = rng.choice([" ", "  ", "\n", "\t", "\r\n", "\n    ", " \t "])
         if r < 0.08:
             return base + "# " + rng.choice(["comment", "a <b> c", "> L <", "x # y", ""]) + rng.choice(["\n", "\r\n", "\n  "])
+        if r < 0.11:
+            # a comment glued to the preceding token ("Comments start with a # and end with the line break"); the line break
+            # itself is swallowed with the comment, so whitespace follows before the next token
+            return "#" + rng.choice(["", " glued", "<x>"]) + rng.choice(["\n ", "\r\n\t", "\n  "])
         if r < 0.35 and not required:
             return ""
         return base
